@@ -28,6 +28,11 @@ type VConc struct {
 	TruncMax uint64    `json:"trunc_max"`
 	WithCP   bool      `json:"with_cp"`
 	Rest     *Mutation `json:"rest,omitempty"` // optional corruption at rest inside the range
+	// CountersOnly: the truncation may overlap the checkpoint's own StoreLogs and verification (outside the
+	// quantifier of C16/C17), so reports are not judged; only the published counters are compared with what
+	// the harness saw: checkpoints_written = checkpoint entries stored through the middleware,
+	// ranges_verified = reports delivered, and delivered + dropped = checkpoints (C20 / C18).
+	CountersOnly bool `json:"counters_only,omitempty"`
 }
 
 type VConcResult struct {
@@ -138,10 +143,25 @@ func RunVConc(ch vsched.Chooser, sc *VConc) (*vsched.Result, *VConcResult) {
 		if sc.Node == 0 {
 			recordTruth()
 		}
+		delivered := len(nd.reports)
 		c.checkReports()
-		if sc.Node == 0 {
+		if sc.Node == 0 && !sc.CountersOnly {
 			// the follower gets whatever the leader still has beyond the follower's last entry
 			c.Apply(VEvent{K: "RP", Node: 1})
+		}
+		if sc.CountersOnly {
+			c.Viol = nil
+			sum := nd.mc.Summary()
+			// checkpoints stored through this node's middleware: 3 (setup) and 7
+			wantCP := uint64(2)
+			if got := sum.Counters["checkpoints_written"]; got != wantCP {
+				bad("C20", "verifier counter checkpoints_written = %d, checkpoint entries stored through the middleware = %d", got, wantCP)
+			}
+			rv, dr := sum.Counters["ranges_verified"], sum.Counters["dropped_reports"]
+			if rv+dr != wantCP {
+				bad("C18", "%d checkpoints stored, ranges_verified %d + dropped_reports %d", wantCP, rv, dr)
+			}
+			_ = delivered
 		}
 		out.Viol = append(out.Viol, c.Viol...)
 		out.History = fmt.Sprintf("clean=%d diverged=%d rangemismatch=%d first=%d/%d", c.Clean, c.Diverged, c.RangeMis, c.first(c.Nodes[0]), c.first(c.Nodes[1]))
